@@ -72,8 +72,42 @@ def ddmin(lines, fails, keep_prefix=3, max_rounds=60):
     return head + body
 
 
+def run_impl_only(batch):
+    """scripts the Layer 1 model does not cover (replicated hierarchy): implementation and oracles only"""
+    all_lines, bounds = [], []
+    for lines in batch:
+        bounds.append((len(all_lines), len(all_lines) + len(lines)))
+        all_lines += lines
+    steps = [l for l in all_lines if l.split() and not l.startswith("#")]
+    blocks = simlib.run_impl(steps)
+    return [(steps[a:b], blocks[a:b]) for a, b in bounds]
+
+
+def impl_only_collect(rep, scripts, oracle_props, label):
+    """scripts: list of (name, lines, settle_from). Returns oracle failures (shrunk)."""
+    res = run_impl_only([l for _, l, _ in scripts])
+    fails = []
+    for (name, lines, sf), (steps, blocks) in zip(scripts, res):
+        pr = [p for p in simoracle.Trace(steps, blocks).run(settle_from=sf) if p["prop"] in oracle_props]
+        if pr:
+            fails.append(dict(script_name=name, problem=pr[0], script=lines, settle_from=sf))
+    for f in fails[:1]:
+        body, tail = f["script"][:f["settle_from"]], f["script"][f["settle_from"]:]
+
+        def still(b, tail=tail):
+            steps, blocks = run_impl_only([b + tail])[0]
+            return any(p["prop"] in oracle_props for p in simoracle.Trace(steps, blocks).run(settle_from=len(b)))
+        sb = ddmin(body, still)
+        f["shrunk"] = sb + tail
+        f["shrunk_settle_from"] = len(sb)
+    rep.cov[label] = dict(scripts=len(scripts), steps_total=sum(len(l) for _, l, _ in scripts),
+                          rule="implementation-only scripts (no Coq model): real apps with a replicated ChildOf hierarchy, judged by the implementation-side oracles")
+    rep.cov["evaluations"] = rep.cov.get("evaluations", 0) + len(scripts)
+    return fails
+
+
 def sim_check(prop, tier, seed, gen_kwargs_list, n_quick, n_thorough, oracle_props=None, extra_assumptions=(),
-              rule_extra="", settle=True, known_ids=(), custom_scripts=None, model_name="RV.Repl.Sys"):
+              rule_extra="", settle=True, known_ids=(), custom_scripts=None, model_name="RV.Repl.Sys", impl_only_scripts=None):
     rep = Report(prop, tier, seed)
     rng = random.Random(seed)
     proofs_ok, ready = prepare(rep, bins=("sim",))
@@ -81,6 +115,8 @@ def sim_check(prop, tier, seed, gen_kwargs_list, n_quick, n_thorough, oracle_pro
         return rep.finish()
     oracle_fail, diverged = sim_collect(rep, prop, tier, rng, seed, gen_kwargs_list, n_quick, n_thorough, oracle_props, extra_assumptions,
                                         rule_extra, settle, known_ids, custom_scripts, top_level=True)
+    if impl_only_scripts:
+        oracle_fail = oracle_fail + impl_only_collect(rep, impl_only_scripts(rng, tier), oracle_props or {prop}, "hierarchy")
     return sim_conclude(rep, prop, proofs_ok, oracle_fail, diverged, model_name)
 
 
@@ -188,10 +224,13 @@ def sim_collect(rep, prop, tier, rng, seed, gen_kwargs_list, n_quick, n_thorough
     for fnd in kf["open"]:
         if fnd["property"] == prop and fnd["id"] in known_ids and fnd.get("witness_script"):
             wl = [l.rstrip("\n") for l in open(os.path.join(VERIF, fnd["witness_script"])) if l.strip() and not l.startswith("#")]
-            r_ = run_batch([wl])[0]
-            steps = r_[0]
+            if fnd.get("impl_only"):
+                steps, raw_ = run_impl_only([wl])[0]
+            else:
+                r_ = run_batch([wl])[0]
+                steps, raw_ = r_[0], r_.raw
             sf = fnd.get("settle_from")
-            tr = simoracle.Trace(steps, r_.raw)
+            tr = simoracle.Trace(steps, raw_)
             pr = [p for p in tr.run(settle_from=sf) if p["prop"] == prop]
             rep.known_finding(fnd["id"], "%s | witness %s: %s" % (fnd["what"], fnd["witness_script"], pr[0]["why"] if pr else "witness no longer fails"))
 
